@@ -63,7 +63,7 @@ class Prop(PropBase):
     id = 'C12'
     coq_imports = ['PV.Model.Alias']
     props_file = 'theories/Props/C12.v'
-    n_cases = {'quick': 400, 'thorough': 15000}
+    n_cases = {'quick': 400, 'thorough': 9000}
     case_timeout = 120
     rule = ('case = two generated pipelines (main 1-5 steps, other 1-3) of set / append / contextmerge / '
             'default / py / contextcopy / configvars steps with `in` containers, foreach and retry '
@@ -77,7 +77,10 @@ class Prop(PropBase):
             'PipelineDefinition.pipeline, config.vars, config.shortcuts around every run and at every '
             'step, then - caches cleared, configuration rebuilt - other, main, other (the opposite order); '
             '30% of the cases are written to a temp dir as two yaml files whose paths differ only in case '
-            'and run through the real file loader. thorough tier adds pairs on two real threads under a step-granular turnstile '
+            'and run through the real file loader; 12% contain a (foreach) step calling a step group. '
+            'Both tiers add pairs of runs on two real threads (half of them two runs of the SAME cached '
+            'pipeline with a foreach step that calls a group), a turnstile step before every step incl. those '
+            'of the called group; thorough tier: more pairs on two real threads under a step-granular turnstile '
             '(3 schedules each). non-trivial = some step changed a context container or the definition')
     trusted_base = [
         'PARTIAL: CPython-level atomicity (GIL) of dict/list operations, the logging module and third-party '
@@ -110,8 +113,9 @@ class Prop(PropBase):
 
     def generate(self, rng, n, tier):
         cases = [c12_gen.gen_case(rng, tier) for _ in range(n)]
-        if tier == 'thorough':
-            cases += [c12_gen.gen_case(rng, tier, threads=True) for _ in range(max(20, n // 12))]
+        # two runs on real threads under a turnstile: half of them two runs of ONE cached pipeline
+        k = max(20, n // 12) if tier == 'thorough' else max(10, n // 8)
+        cases += [c12_gen.gen_case(rng, tier, threads=True) for _ in range(k)]
         return cases
 
     def run_impl(self, case):
@@ -149,9 +153,9 @@ class Prop(PropBase):
         runs = list(obs.get('runs', []))
         groups = [('sequential', runs)]
         for th in obs.get('threaded', []):
-            groups.append((f'threads schedule {th["schedule"]}', [th['main'], th['other']]))
+            groups.append((f'threads schedule {th["schedule"]}', th['runs']))
         if 'solo' in obs:
-            groups.insert(0, ('solo', [obs['solo']['main'], obs['solo']['other']]))
+            groups.insert(0, ('solo', obs['solo']))
         first_fp = None
         for label, rs in groups:
             concurrent = label.startswith('threads')
@@ -210,32 +214,34 @@ class Prop(PropBase):
                                 'run-depends-on-order-of-pipelines'))
         if 'solo' in obs:
             for th in obs['threaded']:
-                for p in ('main', 'other'):
-                    if not same(obs['solo'][p], th[p]):
-                        dirty = bool(th[p]['changed_after']) or bool(obs['solo'][p]['changed_after'])
+                for t, (a, b) in enumerate(zip(obs['solo'], th['runs'])):
+                    if not same(a, b):
+                        dirty = bool(b['changed_after']) or bool(a['changed_after'])
                         fp = first_fp if (dirty and first_fp) else 'concurrent-run-differs-from-solo'
                         out.append(fail('interleaving',
-                                        f'{p} run concurrently under schedule {th["schedule"]} differs from its '
-                                        f'solo run: {json.dumps(th[p]["final"])[:300]} vs '
-                                        f'{json.dumps(obs["solo"][p]["final"])[:300]}', fp))
+                                        f'thread {t} ({b["pipe"]}) run concurrently under schedule {th["schedule"]} '
+                                        f'differs from the same run made alone: outcome {a["outcome"]!r} vs '
+                                        f'{b["outcome"]!r}; trace {json.dumps(a["trace"])[:300]} vs '
+                                        f'{json.dumps(b["trace"])[:300]}; final {json.dumps(a["final"])[:200]} vs '
+                                        f'{json.dumps(b["final"])[:200]}', fp))
         return out
 
     # ---------------------------------------------------------------- evidence
     def nontrivial(self, case, obs):
-        rs = obs.get('runs') or [obs['solo']['main']]
+        rs = obs.get('runs') or obs['solo'][:1]
         r = rs[0]
         return len(r['trace']) >= 1 and (r['final'] != case['dict_in'] or bool(r['changed_after']))
 
     def describe(self, case, obs):
         tags = []
-        for st in case['main'] + case['other']:
+        for st in L.all_steps(case):
             tags.append('step:' + st['kind'])
             if st.get('foreach'):
                 tags.append('foreach')
             if st.get('retry'):
                 tags.append('retry')
         tags = sorted(set(tags))
-        rs = obs.get('runs') or [obs['solo']['main'], obs['solo']['other']]
+        rs = obs.get('runs') or obs['solo']
         tags.append('definition-changed' if any(r['changed_after'] for r in rs) else 'definition-intact')
         tags.append('outcome:' + str(rs[0]['outcome']))
         if case.get('shortcut'):
@@ -248,7 +254,7 @@ class Prop(PropBase):
             if L.in_model(case) and any(o[0] == 'InjectIn' and o[1] == 'argList' for o in L.pipeline_ops(case, 'main')):
                 tags.append('argList-is-the-shortcuts-list')
         if case.get('threads'):
-            tags.append('threaded')
+            tags.append('threaded-same-pipeline' if case['threads'].get('same') else 'threaded')
         if case.get('file_loader'):
             tags.append('real-file-loader:' + case['file_loader'].get('layout', 'name'))
         if case.get('vars_yaml'):
